@@ -196,6 +196,22 @@ def build(repo=None):
                 if "meta_path" not in ast.unparse(node.iter):
                     raise Unsupported("install_import_hook: unrecognised loop")
                 tgt = node.target
+                if "PathFinder" not in ast.unparse(node):
+                    # some OTHER scan of sys.meta_path (not the search for the PathFinder): zero iterations, or one with an arbitrary entry
+                    # (e.g. a finder installed earlier); whatever that iteration does -- return, raise, fall through -- is kept
+                    outs = [(s0.fork(None, "other-loop:skipped"), NORMAL)]
+                    s1 = s0.clone()
+                    if isinstance(tgt, ast.Name):
+                        s1.env[tgt.id] = Opaque("some-existing-finder")
+                    elif isinstance(tgt, ast.Tuple) and len(tgt.elts) == 2 and all(isinstance(x, ast.Name) for x in tgt.elts):
+                        s1.env[tgt.elts[0].id] = Z("int", z3.FreshConst(INT, "j"))
+                        s1.env[tgt.elts[1].id] = Opaque("some-existing-finder")
+                    else:
+                        raise Unsupported("install_import_hook: loop target")
+                    s1.path.append("other-loop:one-iteration")
+                    for s2, o2 in e.run(node.body, s1):
+                        outs.append((s2, NORMAL if o2.kind in ("normal", "continue", "break") else o2))
+                    return outs
                 found = s0.clone()
                 if isinstance(tgt, ast.Tuple) and len(tgt.elts) == 2 and all(isinstance(x, ast.Name) for x in tgt.elts):
                     found.env[tgt.elts[0].id] = Z("int", z3.FreshConst(INT, "i"))
